@@ -417,7 +417,10 @@ where
 }
 
 struct BitXorAccumulator<T: ArrowNumericType> {
-    value: Option<T::Native>,
+    /// XOR of the accumulated values together with the number of non-null values it
+    /// was built from, `None` while no value is accumulated. The count lets
+    /// `retract_batch` return to `None` once a sliding window frame holds no value.
+    value: Option<(T::Native, u64)>,
 }
 
 impl<T: ArrowNumericType> std::fmt::Debug for BitXorAccumulator<T> {
@@ -437,16 +440,35 @@ where
     T::Native: std::ops::BitXor<Output = T::Native>,
 {
     fn update_batch(&mut self, values: &[ArrayRef]) -> Result<()> {
-        if let Some(x) = arrow::compute::bit_xor(values[0].as_primitive::<T>()) {
-            let v = self.value.get_or_insert_with(|| T::Native::usize_as(0));
+        let array = values[0].as_primitive::<T>();
+        if let Some(x) = arrow::compute::bit_xor(array) {
+            let non_null = (array.len() - array.null_count()) as u64;
+            let (v, count) = self.value.get_or_insert((T::Native::usize_as(0), 0));
             *v = *v ^ x;
+            *count += non_null;
         }
         Ok(())
     }
 
     fn retract_batch(&mut self, values: &[ArrayRef]) -> Result<()> {
         // XOR is it's own inverse
-        self.update_batch(values)
+        let array = values[0].as_primitive::<T>();
+        if let Some(x) = arrow::compute::bit_xor(array) {
+            let non_null = (array.len() - array.null_count()) as u64;
+            let frame_is_empty = match self.value.as_mut() {
+                Some((v, count)) => {
+                    *v = *v ^ x;
+                    *count = count.saturating_sub(non_null);
+                    *count == 0
+                }
+                None => false,
+            };
+            if frame_is_empty {
+                // no value left in the frame: back to "no value seen" (NULL)
+                self.value = None;
+            }
+        }
+        Ok(())
     }
 
     fn supports_retract_batch(&self) -> bool {
@@ -454,7 +476,7 @@ where
     }
 
     fn evaluate(&mut self) -> Result<ScalarValue> {
-        ScalarValue::new_primitive::<T>(self.value, &T::DATA_TYPE)
+        ScalarValue::new_primitive::<T>(self.value.map(|(v, _)| v), &T::DATA_TYPE)
     }
 
     fn size(&self) -> usize {
